@@ -114,8 +114,16 @@ def eval_point(x, t):
     stats = {}
     try:
         gv, gw, gvt, gwt = C.v(x, t), C.w(x, t), C.vt(x, t), C.wt(x, t)
+        # the exported functions are functions: the same arguments again, immediately and after the other three, give the same bits
+        # (a last-call memo whose key and value get out of step returns another point's value for one of the two calls)
+        again = (C.v(x, t), C.v(x, t), C.w(x, t), C.w(x, t), C.vt(x, t), C.vt(x, t), C.wt(x, t), C.wt(x, t))
     except Exception as e:
         return [f"{type(e).__name__} at x={x!r} t={t!r}: {e}"], False, stats
+    for name, first, (a1, a2) in (("v", gv, again[0:2]), ("w", gw, again[2:4]), ("vt", gvt, again[4:6]), ("wt", gwt, again[6:8])):
+        if not (core.bits(a1) == core.bits(first) and core.bits(a2) == core.bits(first)):
+            msgs.append(f"{name}({x!r},{t!r}) = {first!r}, but {a1!r} and {a2!r} when called again with the same arguments")
+    if msgs:
+        return msgs, True, stats
     mass, Vv, Ww, Vt, Wt, b = exact(x, t)
     for name, val in (("v", gv), ("w", gw), ("vt", gvt), ("wt", gwt)):
         if not math.isfinite(val):
